@@ -1,5 +1,10 @@
 import BddVerif.Props.C01
+#print axioms B.Props.C01.apply_pointwise
+#print axioms B.Props.C01.eager_lazy_same
+#print axioms B.Props.C01.apply_canonical_form
 #print axioms B.Props.C01.builtin_tables_consistent
+#print axioms B.Props.C01.builtin_pointwise
+#print axioms B.Props.C01.builtin_tables_check
 #print axioms B.Props.C01.connective_numbers
-#print axioms B.Props.C01.ite_table_consistent
+#print axioms B.Props.C01.ite_table_check
 #print axioms B.Props.C01.ite_connective
